@@ -262,7 +262,22 @@ def samp_b(repo: Repo) -> List[Ob]:
                 rn = next((nd for nd in ncfg.nodes if nd.kind == "return" and nd.ast is r), None)
                 st = {nd for nd in ncfg.nodes if nd.kind == "stmt" and isinstance(nd.ast, ast.Assign) and any(src(t) in ("cls._instance", "Config._instance") for t in nd.ast.targets)
                       and isinstance(nd.ast.value, ast.Name) and nd.ast.value.id == r.value.id}
-                return rn is not None and bool(st) and ncfg.must_pass_through(rn, st)
+                if rn is not None and bool(st) and ncfg.must_pass_through(rn, st):
+                    return True
+                # or: every definition of x that reaches the return is a read of the singleton, or is stored as the singleton before the return
+                if rn is None:
+                    return False
+                defs_ = [d for d in ncfg.reaching_defs(rn, r.value.id)]
+                if not defs_ or any(d is ncfg.entry for d in defs_):
+                    return False
+                for d in defs_:
+                    a_ = d.ast
+                    if isinstance(a_, ast.Assign) and src(a_.value) in ("cls._instance", "Config._instance"):
+                        continue
+                    if st and rn not in ncfg.reachable([m for m, _ in ncfg.succ[d]], blocked=st):
+                        continue
+                    return False
+                return True
             return False
         singleton = bool(rets) and all(_is_instance(r) for r in rets)
         obs.append((ok if singleton else bad)("SAMP-b", nw, "singleton", P, nw.node,
